@@ -877,6 +877,19 @@ def r8(rr, repo):
     local_by_date = any(isinstance(c, ast.Call) and isinstance(c.func, ast.Attribute) and c.func.attr == 'astimezone' and not c.args and 'tzinfo=None' in U(c.func.value).replace(' ', '')
                         for r in rets for c in ast.walk(r.value))
     plain = all(isinstance(r.value, ast.Name) for r in rets)
+    if local_by_date and len(rets) == 1:
+        # ... in the right cases: only a time that carries today's local stamp is re-read by the rules of its date; UTC times and times with a zone of their own (ISO texts) stay as they are
+        from ..peval import PEval, Obj, Lit, Sym, Undecided, Raised
+        zone, other = Obj({}, tz), Obj({}, 'zone_of_the_text')
+        for label, utc_v, zi, keep in (("'@' times are UTC", True, zone, True), ('the text names its own zone', False, other, True), ('a local wall-clock time', False, zone, False)):
+            dtv = Obj({'tzinfo': zi}, 'dt')
+            try:
+                v = PEval({'utc': Lit(utc_v), 'dt': dtv, tz: zone}).ev(rets[0].value)
+            except (Undecided, Raised) as exc:
+                rr.unresolved(f'what parse_date_and_or_time returns when {label} could not be evaluated', um, rets[0], witness=str(exc)[:100], key=f'local-offset-sense|{label}')
+                continue
+            kept = v is dtv
+            rr.ob(f"when {label} the time is {'returned as parsed' if keep else 're-read by the local rules of its date'}", kept == keep and (keep or 'astimezone' in repr(v)), um, rets[0], witness=f'-> {v!r}'[:90], key=f'local-offset-sense|{label}')
     if local_by_date or plain:
         rr.ob("a local date / time is given the UTC offset the local zone has ON THAT DATE (naive wall-clock time -> .astimezone()), not the one in force today - a date on the other side of a "
               "daylight-saving change would be an hour off", local_by_date, um, rets[0] if rets else pdt, witness=U(rets[0])[:110] if rets else '', key='local-offset-of-the-date')
